@@ -10,6 +10,12 @@ structure Inv where
 def parseInv (s : String) : Option Inv :=
   match s.splitOn "=" with
   | [k, sc] =>
+    -- taskS / batchS: requests that share an inner id with another one in flight — each still its own
+    -- transaction; xfer / fee: token methods (their observable here is empty: the harness compares
+    -- reply, write-set and event with the solo run)
+    if k = "taskS" then some ⟨"task", if sc = "-" then [] else (sc.splitOn "+").map (·.splitOn ":")⟩ else
+    if k = "batchS" then some ⟨"batch", if sc = "-" then [] else (sc.splitOn "+").map (·.splitOn ":")⟩ else
+    if k = "xfer" ∨ k = "fee" then some ⟨"batch", []⟩ else
     if k ∉ ["nb", "batch", "task", "done", "q", "init"] then none else
     some ⟨k, if sc = "-" then [] else (sc.splitOn "+").map (·.splitOn ":")⟩
   | _ => none
@@ -82,6 +88,7 @@ def conc (s : S) (sched : List Nat) (invs : List Inv) : String :=
 def step (s : S) : List String → S × String
   | ["reset"] => ({}, "ok")
   | ["seed", k, v] => ({ s with ledger := setKV s.ledger k v }, "ok")
+  | ["feeprep"] => (s, "ok")     -- committed funding and fee setting: nothing the scripted bodies read
   | ["age", _] => (s, "ok")      -- the process has served that many goroutines before: irrelevant to the model
   | "conc" :: sch :: invs =>
     match invs.mapM parseInv with
